@@ -32,7 +32,7 @@ def bounds(tier):
 
 
 def goals(tier):
-    return ["triple:" + t["name"] for t in kitgen.TRIPLES] + ["chain-3", "empty-placeholder", "product-rotated", "next-level-assembly", "two-level"]
+    return ["triple:" + t["name"] for t in kitgen.TRIPLES] + ["chain-3", "empty-placeholder", "product-rotated", "next-level-assembly", "two-level", "inputs-in-another-container"]
 
 
 _KEEP = []
@@ -97,9 +97,18 @@ def check(st, scn):
     NV = gen.class_by_name(t["next_vector"])
     gen.prime([V, Mc, N, NV])
     rv = scn.get("rot_vector", 0)
-    v = V(CircularRecord(Seq(rm.rot_right(vec, rv)), id="vec"))
-    ms = [Mc(CircularRecord(Seq(m), id="ins%d" % i)) for i, m in enumerate(mods)]
-    if not v.is_valid() or not all(m.is_valid() for m in ms):
+    cont = scn.get("container", "seq")
+    v = V(gen.contained(rm.rot_right(vec, rv), cont, "vec"))
+    ms = [Mc(gen.contained(m, cont, "ins%d" % i)) for i, m in enumerate(mods)]
+    try:
+        all_valid = v.is_valid() and all(m.is_valid() for m in ms)
+    except Exception as e:
+        st.violation("level", "typing-raises-" + type(e).__name__, scn, "verdicts", str(e)[:160])
+        return None
+    if not all_valid and cont != "seq":
+        st.violation("level", "inputs-rejected-in-container-" + cont, scn, "valid", "invalid")
+        return None
+    if not all_valid:
         if rv == 0:
             st.filtered += 1
             st.extra["level-inputs-rejected"] += 1
@@ -193,6 +202,12 @@ def run_unit(unit, st, tier):
         if prod is None:
             continue
         st.goal("triple:" + name)
+        for cont in gen.CONTAINERS[1:]:
+            p2 = check(st, dict(base, container=cont))
+            st.scenario("level-ok" if p2 else "level-none", None, calls=4)
+            st.nontrivial += 1
+            if p2:
+                st.goal("inputs-in-another-container")
         # typed wrappers of the unrotated vector and of the unrotated product stay alive while their rotations are explored
         built0 = scenario_strings(t, fill, ph, k, variant)
         for cls_, s_ in ((gen.class_by_name(t["vector"]), built0[0]), (gen.class_by_name(t["next"]), prod)):
@@ -265,10 +280,10 @@ def two_level(st, kit, n_entries, scn, cassette_rotation=0, cassette_ids=None):
             m = kitgen.build_module(E, chain[i], chain[i + 1], body, variant=ci * 3 + i)
             if m is None:
                 return None
-            mods.append(E(CircularRecord(Seq(m), id="e%d%d" % (ci, i))))
+            mods.append(E(gen.contained(m, scn.get("container", "seq"), "e%d%d" % (ci, i))))
             ins += chain[i] + body
         cid = cassette_ids[ci] if cassette_ids else "cas%d" % ci
-        o = asm.run_assemble(CV(CircularRecord(Seq(cv), id="cv%d" % ci)), mods, id=cid, name=cid)
+        o = asm.run_assemble(CV(gen.contained(cv, scn.get("container", "seq"), "cv%d" % ci)), mods, id=cid, name=cid)
         if o.kind != "product":
             st.violation("two-level", "cassette-assembly-fails-" + str(o.exc_name), scn, "product", o.brief())
             return None
@@ -289,8 +304,16 @@ def two_level(st, kit, n_entries, scn, cassette_rotation=0, cassette_ids=None):
         g2 = gen.geometry_of(DV.cutter)
         dv = gen.mk_vector(g2, outer[2], outer[0], gen.word(1, 60, 6, kitgen.ALL_SITES), gen.word(0, 40, 4, kitgen.ALL_SITES),
                            x=gen.word(0, 29, g2.off, kitgen.ALL_SITES), y=gen.word(0, 41, g2.off, kitgen.ALL_SITES))
-    dve = DV(CircularRecord(Seq(dv), id="dv"))
-    if not dve.is_valid():
+    dve = DV(gen.contained(dv, scn.get("container", "seq"), "dv"))
+    try:
+        dv_ok = dve.is_valid()
+    except Exception as e:
+        st.violation("two-level", "device-vector-typing-raises-" + type(e).__name__, scn, "a verdict", str(e)[:160])
+        return None
+    if not dv_ok and scn.get("container", "seq") != "seq":
+        st.violation("two-level", "device-vector-rejected-in-container-" + scn["container"], scn, "valid", "invalid")
+        return None
+    if not dv_ok:
         raise HarnessError("device vector instance rejected ({})".format(kit))
     o = asm.run_assemble(dve, list(reversed(cassettes)), id="device", name="device")
     if o.kind != "product":
@@ -322,6 +345,13 @@ def unit_two_level(st, kit, tier):
         st.nontrivial += 1
         if o:
             st.goal("two-level")
+        # every input of both levels handed over in another container (MutableSeq; features of every flavour + per-letter tracks)
+        for cont in gen.CONTAINERS[1:]:
+            o = two_level(st, kit, n_entries, dict(scn, container=cont))
+            st.scenario("two-level-ok" if o else "two-level-none", None, calls=6)
+            st.nontrivial += 1
+            if o:
+                st.goal("inputs-in-another-container")
     st.sample(dict(two_level=kit, entries=2))
 
 
